@@ -54,7 +54,8 @@ def main():
                           "infl_kind": ("set", "list", "iterator", "generator")[len(tasks) % 4],
                           "labels": ("str", "ints", "str", "falsy", "str")[len(tasks) % 5],
                           "ret_subset": (0, 0, 1, 2, 3)[len(tasks) % 5 if len(tasks) % 3 == 0 else 0]})
-    done = common.pool_run(complexc.run_scenario, tasks, lambda r: bool(r["problems"]))
+    done = common.pool_run(complexc.run_scenario, tasks, lambda r: bool(r["problems"]), is_settled=lambda r: bool(r.get("settled")))
+    common.report_settled(chk, [r for _, r in done])
     for t, r in done:
         chk.cov["evaluations"] += r["leaves"] + r["arr"]
         chk.cov["traces_validated_against_impl"] += r["leaves"]
